@@ -459,6 +459,28 @@ func TestC16Bursts(t *testing.T) {
 		st.NonTrivial(H("shared-input", round))
 		st.Class("concurrent encodes of adjacent sub-slices of one input buffer")
 	}
+	// far more simultaneous callers than any plausible pool / free list / arena size (64, 128, 256): 600 goroutines
+	// making small calls of one size class of one 2D family
+	for _, fam := range []string{"qr", "datamatrix", "aztec", "pdf417"} {
+		c := ConcCase{Procs: runtime.NumCPU(), Repeat: 2}
+		for i := 0; i < 600; i++ {
+			// medium-sized symbols: each call stays inside the encoder long enough to be overtaken by hundreds of others
+			sp := EncSpec{Fam: fam, Content: BStr(fmt.Sprintf("crowd %d ", i) + string(fillPattern(2, int64(i), 400)))}
+			switch fam {
+			case "qr":
+				sp.A, sp.B = 0, 0
+			case "aztec":
+				sp.A = 23
+			case "pdf417":
+				sp.A = 1
+			}
+			c.Specs = append(c.Specs, sp)
+		}
+		checkC16(t, c)
+		st.Eval()
+		st.NonTrivial(H("crowd", fam))
+		st.Class("600 simultaneous callers of one family")
+	}
 	// many goroutines make the SAME call at the same moment and keep their results; one of them then paints over its
 	// own symbol through whatever mutator it exposes (1D symbols expose the BitList methods, QR symbols Set): the
 	// other callers' symbols must not change (results of coalesced / de-duplicated calls sharing their storage)
